@@ -55,6 +55,7 @@ Definition run (req : sexp) : sexp :=
   | SList [SNum 17; SBytes c] => s_res SBytes (comp_get_value c)
   | SList [SNum 18; n] => or_bad (odo x <- as_ns_name n ;; Some (s_res SBytes (name_to_bytes x)))
   (* tlv_var kernel *)
+  | SList [SNum 19; SBytes b; t] => or_bad (odo y <- as_z t ;; Some (s_res SBytes (comp_from_bytes b y)))
   | SList [SNum 20; v] => or_bad (odo x <- as_num v ;; Some (s_res SBytes (tl_enc_r x)))
   | SList [SNum 21; SBytes w] => s_res (s_pair SNum s_nat) (tl_dec w)
   | SList [SNum 22; v] => or_bad (odo x <- as_num v ;; Some (s_res SBytes (nni_enc_r x)))
